@@ -3980,12 +3980,189 @@ pub proof fn lemma_ups_len_bound(ps: Seq<UserProperty>, n: nat)
     decreases n
 { if n > 0 { lemma_ups_len_bound(ps, (n - 1) as nat); assert(up_ok(ps[n - 1])); } }
 
+
+// ---------------------------------------------------------------------------------------------------------------------------------
+// MQTT 5 DISCONNECT on the wire (C02, C07), OASIS 5.0 section 3.14: E0, Remaining Length, then - unless Normal disconnection without properties
+// (Remaining Length 0) - the reason code, and - unless there are no properties (Remaining Length 1) - the property length and the properties
+pub open spec fn disconnect_props_len(p: DisconnectPacket) -> nat {
+    opt_user_props_len(p.user_properties) + (if p.session_expiry_interval_seconds is Some { 5nat } else { 0nat }) + opt_strprop_len(p.reason_string) + opt_strprop_len(p.server_reference)
+}
+pub open spec fn disconnect_remaining_len(p: DisconnectPacket) -> nat {
+    if disconnect_props_len(p) == 0 { if p.reason_code == DisconnectReasonCode::NormalDisconnection { 0 } else { 1 } }
+    else { 1 + vli_len(disconnect_props_len(p)) + disconnect_props_len(p) }
+}
+pub open spec fn disconnect5_sendable(p: DisconnectPacket) -> bool {
+    &&& ups_ok(p.user_properties) && opt_str_ok(p.reason_string) && opt_str_ok(p.server_reference) && (p.user_properties matches Some(ps) ==> count_ok(ps@.len()))
+    &&& disconnect_props_len(p) <= 268435455
+}
+// proved in the validate unit (same contract); a signature-only stub here
+//@fn gneiss-mqtt/src/mqtt/disconnect.rs compute_disconnect_packet_length_properties stub
+    requires ups_ok(packet.user_properties), opt_str_ok(packet.reason_string), opt_str_ok(packet.server_reference),
+        packet.user_properties matches Some(ps) ==> count_ok(ps@.len()),
+    ensures
+        r matches Ok((rem, props)) ==> props == disconnect_props_len(*packet) && rem == disconnect_remaining_len(*packet) && props <= 268435455,
+        disconnect_props_len(*packet) <= 268435455 ==> r is Ok,
+//@end
+//@fn gneiss-mqtt/src/mqtt/disconnect.rs get_disconnect_packet_reason_string props=C02
+    requires packet matches MqttPacket::Disconnect(p) && p.reason_string is Some,
+    ensures packet matches MqttPacket::Disconnect(p) && p.reason_string matches Some(t) && r@ == t@,
+//@end
+//@fn gneiss-mqtt/src/mqtt/disconnect.rs get_disconnect_packet_server_reference props=C02
+    requires packet matches MqttPacket::Disconnect(p) && p.server_reference is Some,
+    ensures packet matches MqttPacket::Disconnect(p) && p.server_reference matches Some(t) && r@ == t@,
+//@end
+//@fn gneiss-mqtt/src/mqtt/disconnect.rs get_disconnect_packet_user_property props=C02
+    requires packet matches MqttPacket::Disconnect(p) && p.user_properties matches Some(ups) && index < ups@.len(),
+    ensures packet matches MqttPacket::Disconnect(p) && p.user_properties matches Some(ups) && *r == ups@[index as int],
+//@end
+pub open spec fn sei_piece(o: Option<u32>) -> Seq<u8> { match o { Some(v) => seq![17u8] + be32_bytes(v), None => Seq::<u8>::empty() } }
+pub open spec fn disconnect5_bytes(p: DisconnectPacket) -> Seq<u8> {
+    let plen = disconnect_props_len(p);
+    if plen == 0 {
+        if p.reason_code == DisconnectReasonCode::NormalDisconnection { seq![0xE0u8] + vli(0) } else { seq![0xE0u8] + vli(1) + seq![p.reason_code as u8] }
+    } else {
+        seq![0xE0u8] + vli(disconnect_remaining_len(p)) + seq![p.reason_code as u8] + vli(plen) + sei_piece(p.session_expiry_interval_seconds)
+        + opt_str_prop_bytes(31u8, p.reason_string) + opt_str_prop_bytes(28u8, p.server_reference) + ups_piece(p.user_properties)
+    }
+}
+pub proof fn lemma_lead_empty2(a: Seq<u8>, b: Seq<u8>) ensures Seq::<u8>::empty() + a + b == a + b { assert(Seq::<u8>::empty() + a + b =~= a + b); }
+pub proof fn lemma_lead_empty8(a: Seq<u8>, b: Seq<u8>, c: Seq<u8>, d: Seq<u8>, e: Seq<u8>, f: Seq<u8>, g: Seq<u8>, h: Seq<u8>)
+    ensures Seq::<u8>::empty() + a + b + c + d + e + f + g + h == a + b + c + d + e + f + g + h,
+{ assert(Seq::<u8>::empty() + a + b + c + d + e + f + g + h =~= a + b + c + d + e + f + g + h); }
+
+//@fn gneiss-mqtt/src/mqtt/disconnect.rs write_disconnect_encoding_steps5 props=C02,C07 desugar fnptr_opaque expand=gneiss-mqtt/src/encode.rs:encode_user_properties+gneiss-mqtt/src/encode.rs:encode_user_property
+//@@attr #[verifier::rlimit(100)]
+//@@attr #[verifier::spinoff_prover]
+    requires
+        disconnect5_sendable(*packet),
+    ensures
+        r is Ok,
+        steps_wf(old(steps)@, MqttPacket::Disconnect(*packet)) ==> steps_wf(final(steps)@, MqttPacket::Disconnect(*packet)),
+        flat(final(steps)@, MqttPacket::Disconnect(*packet)) == flat(old(steps)@, MqttPacket::Disconnect(*packet)) + disconnect5_bytes(*packet),
+//@@at bodystart
+    let ghost s0 = steps@;
+    let ghost mut cur = steps@;
+    let ghost mut acc = Seq::<u8>::empty();
+    let ghost mut pre5 = Seq::<u8>::empty();
+    let ghost pk0 = MqttPacket::Disconnect(*packet);
+    let ghost plen = disconnect_props_len(*packet);
+    proof { lemma_g_init(s0, pk0); }
+//@@at after "encode_integral_expression!(steps, Uint8, PACKET_TYPE_DISCONNECT << 4);"
+    proof {
+        assert(PACKET_TYPE_DISCONNECT << 4 == 0xE0u8) by (compute);
+        { let x = EncodingStep::Uint8(0xE0u8); lemma_g_whole_int(x, pk0); lemma_g_push1(s0, cur, x, acc, int_bytes(x), pk0); cur = cur.push(x); acc = acc + int_bytes(x); }
+        assert(steps@ == cur);
+    }
+//@@at after "encode_integral_expression!(steps, Vli, total_remaining_length);"
+    proof {
+        { let x = EncodingStep::Vli(total_remaining_length); lemma_g_whole_int(x, pk0); lemma_g_push1(s0, cur, x, acc, int_bytes(x), pk0); cur = cur.push(x); acc = acc + int_bytes(x); }
+        assert(steps@ == cur);
+    }
+//@@at before "return Ok(()); @nth=1/2"
+        proof {
+            lemma_g_final(s0, cur, acc, pk0);
+            lemma_lead_empty2(seq![0xE0u8], vli(0));
+            assert(acc == disconnect5_bytes(*packet));
+        }
+//@@at after "encode_enum!(steps, Uint8, u8, packet.reason_code);"
+    proof {
+        { let x = EncodingStep::Uint8(packet.reason_code as u8); lemma_g_whole_int(x, pk0); lemma_g_push1(s0, cur, x, acc, int_bytes(x), pk0); cur = cur.push(x); acc = acc + int_bytes(x); }
+        assert(steps@ == cur);
+    }
+//@@at before "return Ok(()); @nth=2/2"
+        proof {
+            lemma_g_final(s0, cur, acc, pk0);
+            lemma_lead_empty3(seq![0xE0u8], vli(1), seq![packet.reason_code as u8]);
+            assert(acc == disconnect5_bytes(*packet));
+        }
+//@@at after "encode_integral_expression!(steps, Vli, disconnect_property_length);"
+    proof {
+        { let x = EncodingStep::Vli(disconnect_property_length); lemma_g_whole_int(x, pk0); lemma_g_push1(s0, cur, x, acc, int_bytes(x), pk0); cur = cur.push(x); acc = acc + int_bytes(x); }
+        assert(steps@ == cur);
+    }
+//@@at after "encode_optional_property!(steps, Uint32, PROPERTY_KEY_SESSION_EXPIRY_INTERVAL, packet.session_expiry_interval_seconds);"
+    proof {
+        let pre = acc;
+        if packet.session_expiry_interval_seconds is Some {
+            { let x = EncodingStep::Uint8(17u8); lemma_g_whole_int(x, pk0); lemma_g_push1(s0, cur, x, acc, int_bytes(x), pk0); cur = cur.push(x); acc = acc + int_bytes(x); }
+            { let x = EncodingStep::Uint32(packet.session_expiry_interval_seconds->Some_0); lemma_g_whole_int(x, pk0); lemma_g_push1(s0, cur, x, acc, int_bytes(x), pk0); cur = cur.push(x); acc = acc + int_bytes(x); }
+            lemma_g_regroup2(s0, cur, pre, seq![17u8], be32_bytes(packet.session_expiry_interval_seconds->Some_0), pk0);
+        } else { lemma_g_regroup0(s0, cur, pre, pk0); }
+        assert(steps@ == cur);
+        acc = pre + sei_piece(packet.session_expiry_interval_seconds);
+    }
+//@@at after "encode_optional_string_property!(steps, get_disconnect_packet_reason_string, PROPERTY_KEY_REASON_STRING, packet.reason_string);"
+    proof {
+        let pre = acc;
+        if packet.reason_string is Some {
+            { let x = EncodingStep::Uint8(31u8); lemma_g_whole_int(x, pk0); lemma_g_push1(s0, cur, x, acc, int_bytes(x), pk0); cur = cur.push(x); acc = acc + int_bytes(x); }
+            { let x = EncodingStep::Uint16(blen(packet.reason_string->Some_0@) as u16); lemma_g_whole_int(x, pk0); lemma_g_push1(s0, cur, x, acc, int_bytes(x), pk0); cur = cur.push(x); acc = acc + int_bytes(x); }
+            { let y = steps@[steps@.len() - 1]; assert(g_whole(y, str_bytes(packet.reason_string->Some_0@), pk0)) by { reveal(g_whole); assert(get_disconnect_packet_reason_string.requires((&pk0,))); } assert(step_off(y) == 0); lemma_g_push1(s0, cur, y, acc, str_bytes(packet.reason_string->Some_0@), pk0); cur = cur.push(y); acc = acc + str_bytes(packet.reason_string->Some_0@); }
+            lemma_g_regroup3(s0, cur, pre, seq![31u8], be16_bytes(blen(packet.reason_string->Some_0@) as u16), str_bytes(packet.reason_string->Some_0@), pk0);
+        } else { lemma_g_regroup0(s0, cur, pre, pk0); }
+        assert(steps@ == cur);
+        acc = pre + opt_str_prop_bytes(31u8, packet.reason_string);
+    }
+//@@at after "encode_optional_string_property!(steps, get_disconnect_packet_server_reference, PROPERTY_KEY_SERVER_REFERENCE, packet.server_reference);"
+    proof {
+        let pre = acc;
+        if packet.server_reference is Some {
+            { let x = EncodingStep::Uint8(28u8); lemma_g_whole_int(x, pk0); lemma_g_push1(s0, cur, x, acc, int_bytes(x), pk0); cur = cur.push(x); acc = acc + int_bytes(x); }
+            { let x = EncodingStep::Uint16(blen(packet.server_reference->Some_0@) as u16); lemma_g_whole_int(x, pk0); lemma_g_push1(s0, cur, x, acc, int_bytes(x), pk0); cur = cur.push(x); acc = acc + int_bytes(x); }
+            { let y = steps@[steps@.len() - 1]; assert(g_whole(y, str_bytes(packet.server_reference->Some_0@), pk0)) by { reveal(g_whole); assert(get_disconnect_packet_server_reference.requires((&pk0,))); } assert(step_off(y) == 0); lemma_g_push1(s0, cur, y, acc, str_bytes(packet.server_reference->Some_0@), pk0); cur = cur.push(y); acc = acc + str_bytes(packet.server_reference->Some_0@); }
+            lemma_g_regroup3(s0, cur, pre, seq![28u8], be16_bytes(blen(packet.server_reference->Some_0@) as u16), str_bytes(packet.server_reference->Some_0@), pk0);
+        } else { lemma_g_regroup0(s0, cur, pre, pk0); }
+        assert(steps@ == cur);
+        acc = pre + opt_str_prop_bytes(28u8, packet.server_reference);
+    }
+//@@at before "if let Some(properties) = &packet.user_properties {"
+    proof {
+        pre5 = acc;
+    }
+//@@at before "let mut verif_enum0: usize = 0;"
+            proof {
+                lemma_g_regroup0(s0, cur, pre5, pk0);
+            }
+//@@loop 0 iter=it
+            invariant
+                packet.user_properties is Some, properties@ == packet.user_properties->Some_0@, it.seq().len() == properties@.len(), count_ok(properties@.len()),
+                ups_ok(packet.user_properties), pk0 == MqttPacket::Disconnect(*packet),
+                verif_enum0 == it.index@,
+                cur == steps@,
+                g_inv(s0, steps@, pre5 + ups_bytes(properties@, it.index@ as nat), pk0),
+                it.index@ == it.seq().len() ==> g_inv(s0, steps@, pre5 + ups_piece(packet.user_properties), pk0),
+//@@at before "verif_enum0 += 1;"
+                proof { assert(it.index@ < it.seq().len()); }
+//@@bodyend_of_loop 0
+                proof {
+                    let n = it.index@;
+                    let u = properties@[n];
+                    assert(*user_property == u);
+                    assert(up_ok(u));
+                    acc = pre5 + ups_bytes(properties@, n as nat);
+                    { let x = EncodingStep::Uint8(38u8); lemma_g_whole_int(x, pk0); lemma_g_push1(s0, cur, x, acc, int_bytes(x), pk0); cur = cur.push(x); acc = acc + int_bytes(x); }
+                    { let x = EncodingStep::Uint16(blen(u.name@) as u16); lemma_g_whole_int(x, pk0); lemma_g_push1(s0, cur, x, acc, int_bytes(x), pk0); cur = cur.push(x); acc = acc + int_bytes(x); }
+                    { let y = steps@[steps@.len() - 3]; assert(g_whole(y, str_bytes(u.name@), pk0)) by { reveal(g_whole); assert(get_disconnect_packet_user_property.requires((&pk0, i))); } assert(step_off(y) == 0); lemma_g_push1(s0, cur, y, acc, str_bytes(u.name@), pk0); cur = cur.push(y); acc = acc + str_bytes(u.name@); }
+                    { let x = EncodingStep::Uint16(blen(u.value@) as u16); lemma_g_whole_int(x, pk0); lemma_g_push1(s0, cur, x, acc, int_bytes(x), pk0); cur = cur.push(x); acc = acc + int_bytes(x); }
+                    { let y = steps@[steps@.len() - 1]; assert(g_whole(y, str_bytes(u.value@), pk0)) by { reveal(g_whole); assert(get_disconnect_packet_user_property.requires((&pk0, i))); } assert(step_off(y) == 0); lemma_g_push1(s0, cur, y, acc, str_bytes(u.value@), pk0); cur = cur.push(y); acc = acc + str_bytes(u.value@); }
+                    assert(steps@ == cur);
+                    lemma_g_regroup_up(s0, cur, pre5, properties@, n as nat, pk0);
+                }
+//@@at before "Ok(()) @nth=3/3"
+    proof {
+        if packet.user_properties is None { lemma_g_regroup0(s0, cur, pre5, pk0); }
+        acc = pre5 + ups_piece(packet.user_properties);
+        lemma_g_final(s0, cur, acc, pk0);
+        lemma_lead_empty8(seq![0xE0u8], vli(disconnect_remaining_len(*packet)), seq![packet.reason_code as u8], vli(plen), sei_piece(packet.session_expiry_interval_seconds), opt_str_prop_bytes(31u8, packet.reason_string), opt_str_prop_bytes(28u8, packet.server_reference), ups_piece(packet.user_properties));
+        assert(acc == disconnect5_bytes(*packet));
+    }
+//@end
+
 // ---- MQTT 5 dispatch: PUBLISH and PINGREQ are under contract; the other writers are signature-only stubs with NO postcondition
 #[verifier::external_body] pub fn write_connect_encoding_steps5(packet: &ConnectPacket, context: &EncodingContext, steps: &mut VecDeque<EncodingStep>) -> GneissResult<()> { unimplemented!() }
 #[verifier::external_body] pub fn write_connack_encoding_steps5(packet: &ConnackPacket, context: &EncodingContext, steps: &mut VecDeque<EncodingStep>) -> GneissResult<()> { unimplemented!() }
 #[verifier::external_body] pub fn write_suback_encoding_steps5(packet: &SubackPacket, context: &EncodingContext, steps: &mut VecDeque<EncodingStep>) -> GneissResult<()> { unimplemented!() }
 #[verifier::external_body] pub fn write_unsuback_encoding_steps5(packet: &UnsubackPacket, context: &EncodingContext, steps: &mut VecDeque<EncodingStep>) -> GneissResult<()> { unimplemented!() }
-#[verifier::external_body] pub fn write_disconnect_encoding_steps5(packet: &DisconnectPacket, context: &EncodingContext, steps: &mut VecDeque<EncodingStep>) -> GneissResult<()> { unimplemented!() }
 #[verifier::external_body] pub fn write_auth_encoding_steps5(packet: &AuthPacket, context: &EncodingContext, steps: &mut VecDeque<EncodingStep>) -> GneissResult<()> { unimplemented!() }
 
 pub open spec fn wire5(pk: MqttPacket, res: OutboundAliasResolution) -> Option<Seq<u8>> {
@@ -3993,6 +4170,7 @@ pub open spec fn wire5(pk: MqttPacket, res: OutboundAliasResolution) -> Option<S
         MqttPacket::Publish(p) => Some(publish5_bytes(p, res)),
         MqttPacket::Unsubscribe(p) => Some(unsubscribe5_bytes(p)),
         MqttPacket::Subscribe(p) => Some(subscribe5_bytes(p)),
+        MqttPacket::Disconnect(p) => Some(disconnect5_bytes(p)),
         MqttPacket::Puback(p) => Some(ack5_bytes(0x40u8, p.packet_id, p.reason_code as u8, p.reason_code == PubackReasonCode::Success, p.reason_string, p.user_properties)),
         MqttPacket::Pubrec(p) => Some(ack5_bytes(0x50u8, p.packet_id, p.reason_code as u8, p.reason_code == PubrecReasonCode::Success, p.reason_string, p.user_properties)),
         MqttPacket::Pubrel(p) => Some(ack5_bytes(0x62u8, p.packet_id, p.reason_code as u8, p.reason_code == PubrelReasonCode::Success, p.reason_string, p.user_properties)),
@@ -4003,6 +4181,7 @@ pub open spec fn wire5(pk: MqttPacket, res: OutboundAliasResolution) -> Option<S
 }
 pub open spec fn sendable5(pk: MqttPacket, res: OutboundAliasResolution) -> bool {
     match pk { MqttPacket::Publish(p) => publish5_sendable(p, res), MqttPacket::Unsubscribe(p) => unsubscribe5_sendable(p), MqttPacket::Subscribe(p) => subscribe5_sendable(p),
+        MqttPacket::Disconnect(p) => disconnect5_sendable(p),
         MqttPacket::Puback(p) => ack5_sendable(p.reason_string, p.user_properties), MqttPacket::Pubrec(p) => ack5_sendable(p.reason_string, p.user_properties),
         MqttPacket::Pubrel(p) => ack5_sendable(p.reason_string, p.user_properties), MqttPacket::Pubcomp(p) => ack5_sendable(p.reason_string, p.user_properties),
         _ => true }
